@@ -4,7 +4,7 @@ use crate::infra::td::*;
 use crate::infra::*;
 use serde_json::json;
 
-pub const RULE: &str = "digests over 4 scale functions x delta in {1.1,2,5,10,20,50,100,300,1000} x backlog in {0,1,10,1000} x 13 data families (7 smooth incl. sorted/reverse/sawtooth orders, 6 with heavy ties or density cliffs), reads interleaved at random positions; at checkpoints n in {1,2,10,100,...}: n_centroids <= delta+3, and for a grid of ~1200 q and ~700 x the rank error of quantile(q) / cdf(x) against the exact empirical CDF of all inserted values must be <= c*W + 2/n (c=1 smooth, 3 ties/cliffs, 15% guard band). plus six very long sorted streams (6x10^7 quick, 3x10^8 thorough inserts, backlog 10^5) whose empirical CDF is known analytically: centroid bound and quantile accuracy at n = 10^6, 4x10^6, ... ; non-trivial = digest that performed >= 1 fuse and was checked at n >= 100; distinct = (scale, delta, backlog, family, seed) tuples";
+pub const RULE: &str = "digests over 4 scale functions x delta in {1.1,2,5,10,20,50,100,300,1000} x backlog in {0,1,10,1000} x 13 data families (7 smooth incl. sorted/reverse/sawtooth orders, 6 with heavy ties or density cliffs), reads interleaved at random positions, zeros fed as -0.0 in every other block of items; at checkpoints n in {1,2,10,100,...}: n_centroids <= delta+3, and for a grid of ~1200 q and ~700 x the rank error of quantile(q) / cdf(x) against the exact empirical CDF of all inserted values must be <= c*W + 2/n (c=1 smooth, 3 ties/cliffs, 15% guard band). plus six very long sorted streams (6x10^7 quick, 3x10^8 thorough inserts, backlog 10^5) whose empirical CDF is known analytically: centroid bound and quantile accuracy at n = 10^6, 4x10^6, ... ; non-trivial = digest that performed >= 1 fuse and was checked at n >= 100; distinct = (scale, delta, backlog, family, seed) tuples";
 pub const ASSUMPTIONS: &[&str] = &[
     "value tolerance tau = max(1e-9 * data range, n * eps * max|x|) when locating quantile(q) in the empirical CDF (a centroid mean is sum/count of a plain running f64 sum and carries its accumulation error)",
     "K2/K3 accuracy is only checked for n >= delta, as stated",
@@ -190,6 +190,9 @@ fn item(ctx: &Ctx, i: usize, rep: &mut Report) {
     let res = guarded(|| -> Result<(), (String, String)> {
         for k in 0..n_max {
             let x = fam.gen(&mut r, k, n_max) * scale + offset;
+            // every other block of items feeds its zeros as -0.0 (equal to 0.0 for every comparison, so the
+            // oracle is unaffected; an ordering by bit pattern or by a sign test is not) - seventh round
+            let x = if (i / 14) % 2 == 1 && x == 0.0 { -0.0 } else { x };
             t.insert(x);
             vals.push(x);
             if p_read > 0.0 && r.chance(p_read) {
